@@ -52,6 +52,11 @@ def _strict(plain):
     if not plain:
         return WELL, [], "empty"
     c = plain[:1]
+    if plain[:4] == b"BAM\1":
+        try:
+            return WELL, fmt.parse_bam_strict(plain), ""
+        except fmt.FormatError as e:
+            return MAL, None, str(e)
     if c in (b">", b"#"):
         return UNSPEC, None, "content looks like FASTA"
     if c != b"@":
@@ -129,7 +134,7 @@ PROFILE = dict(
     p_demux=0.12, p_info=0.15, p_rename=0.05, p_revcomp=0.05, p_pair_adapters=0.03,
     p_minimal_report=0.05, p_stdout=0.1, workers=(2, 4), simple_adapters=True,
     p_big=0.004, p_huge=0.0, p_long_read=0.0,  # few large inputs, and never with a one-pair buffer (see _bias_buffer)
-    allow_fasta_names_for_fastq=False, p_qbase64=0.03, p_quiet=0.04, p_debug=0.03,
+    allow_fasta_names_for_fastq=False, p_qbase64=0.03, p_quiet=0.04, p_debug=0.03, p_bam=0.06,
 )
 
 
@@ -153,7 +158,7 @@ def record_offsets(case, file_index):
         sizes = s2
     else:
         sizes = s1
-    offs = [0]
+    offs = [fmt.bam_header_size() if case["input"].get("bam") else 0]
     for s in sizes:
         offs.append(offs[-1] + s)
     return offs
@@ -182,6 +187,11 @@ def enumerate_faults(case):
     for fi, p in enumerate(paths):
         for off in range(len(files[p])):
             plan.append([{"kind": "truncate", "file": fi, "offset": off}])
+    if case["input"].get("bam"):
+        # the BAM stream cut at every offset inside intact gzip members
+        for off in range(len(gen.plain_streams(case)[0])):
+            plan.append([{"kind": "truncate_plain", "file": 0, "offset": off}])
+        return plan
     nrec = n * (2 if case["input"]["layout"] == "interleaved" else 1)
     for fi in range(len(paths)):
         for rec in range(nrec):
@@ -202,7 +212,19 @@ def random_fault(rng, case, files):
     n = len(case["records"]) * (2 if case["input"]["layout"] == "interleaved" else 1)
     r = rng.random()
     cont = case["input"]["containers"][fi]
-    if r < 0.35 or n == 0:
+    bam = bool(case["input"].get("bam"))
+    if (bam and r < 0.65) or (cont != "" and r < 0.08):
+        # the data were cut before they were compressed: the container is intact
+        plain = gen.style_plain(case, gen.plain_streams(case)[fi])
+        if n and rng.random() < 0.5:
+            offs = record_offsets(case, fi)
+            off = max(0, min(len(plain), rng.choice(offs) + rng.choice([-2, -1, 0, 0, 1, 2])))
+        else:
+            off = rng.randrange(len(plain) + 1) if plain else 0
+        return {"kind": "truncate_plain", "file": fi, "offset": off}
+    if bam and r >= 0.9 and len(data) > 20 and case["input"]["members"][fi] == 1:
+        return {"kind": "gz_flip", "file": fi, "offset": rng.randrange(10, len(data)), "bit": rng.randrange(8)}
+    if r < 0.35 or n == 0 or bam:
         # bias: on a record boundary / just around it / anywhere
         if cont == "" and rng.random() < 0.5 and n:
             offs = record_offsets(case, fi)
@@ -237,6 +259,7 @@ def _table(seed, tier):
         {"paired": False, "in_containers": (".gz",)},
         {"paired": True, "in_containers": (".gz",), "force_layout": "two"},
         {"paired": False, "in_containers": (".gz",), "force_members": 3},
+        {"paired": False, "p_bam": 1.0},
     ]
     n_bases = 2 if tier == "quick" else len(forces) * 3
     bases = []
